@@ -182,6 +182,11 @@ fn run_interp<M: AlignMarker>(desc: &RunDesc) -> ! {
     sh.ebr.enable(sh.global_epoch_addr);
     match desc.family.as_str() {
         "rc-cells" | "dir-c" => sh.strong_extra = ",C08",
+        "rc-bulk" | "dir-b" => {
+            // owners handed out in bulk stay owners whatever is done with them afterwards
+            sh.strong_extra = ",C10";
+            sh.weak_extra = ",C10";
+        }
         "rc-wcells" | "dir-w" => sh.weak_extra = ",C09",
         "tls" | "ebr-churn" | "dir-t10" | "dir-t11" => sh.leak_extra = ",C20",
         _ => {}
@@ -210,6 +215,7 @@ fn run_interp<M: AlignMarker>(desc: &RunDesc) -> ! {
         body: Arc::new(move |tid| {
             let rounds = interp::run_janitor::<M>(tid, world, max_rounds);
             set_extra("janitor_rounds", rounds);
+            shadow::shadow().janitor_rounds_done = rounds;
         }),
     });
     let sc = sim_config(desc, n + 1);
